@@ -36,6 +36,7 @@ type result struct {
 	Replays     map[string]string   `json:"replays"`
 	Errors      []string            `json:"errors"`
 	Exhaustive  bool                `json:"exhaustive"`
+	Unmodelled  map[string]string   `json:"unmodelled,omitempty"`
 	WallSeconds float64             `json:"wall_s"`
 }
 
@@ -104,7 +105,8 @@ func main() {
 	}
 
 	if *mode == "direct" {
-		d := direct.Run(*prop, *tier, *seed, si, sn, rep, note)
+		// garbage collection is off (see above): collect by hand at every progress note, i.e. between replayed histories
+		d := direct.Run(*prop, *tier, *seed, si, sn, rep, func(s string) { note(s); runtime.GC() })
 		res.Cases = d.Evaluations
 		res.Exhaustive = d.Exhaustive
 		// witnesses for violations found while replaying histories
@@ -173,6 +175,7 @@ func main() {
 	res.DontCare = rep.DontCare[*prop]
 	res.Counters = rep.Count[*prop]
 	res.Samples = rep.Samples[*prop]
+	res.Unmodelled = rep.Unmodelled
 	for _, v := range rep.Violations {
 		if v.Prop == *prop {
 			res.Violations = append(res.Violations, v)
